@@ -1009,3 +1009,80 @@ def c18(ck):
         for r in recs:
             if r.get("stdout_bytes", 0) > 0:
                 ck.mismatch(dict(r, family="cache-pressure-stdout"), "cache-pressure-stdout")
+
+
+# ------------------------------------------------------------------- C19
+@prop("C19")
+def c19(ck):
+    import gbprog, subprocess
+    from concurrent.futures import ThreadPoolExecutor
+    thorough = ck.tier == "thorough"
+    ck.rule = ("ROM files generated from Cart!Load by TLC (Gen_Load): all 256 checksum bytes x 4 types, all 256 type bytes, "
+               "15 ROM-size codes x 8 RAM-size codes x 3 types x 8 file lengths (0, 0xFF, 0x100, 0x14F, 0x150, declared-1, "
+               "declared, declared+1), all 256 ROM/RAM-size codes for the decoded sizes; (a) through system::read_header, "
+               "Header::valid_checksum, the size getters and create_cart_state in process, (b) through the repository's own "
+               "binary on the file, which when it accepts runs a program that reads the last declared ROM byte and every RAM "
+               "bank and then prints a marker; each file is a case")
+    mc = tlc("MC_Cart", workers=10, coverage=True, timeout=3000)
+    ck.add_tlc("MC_Cart", mc)
+    out = os.path.join(rundir(), "load.ndjson")
+    g = tlc("Gen_Load", env={"OUT": out}, timeout=900)
+    ck.add_tlc("Gen_Load", g, mc=False)
+    cases = vlib.read_ndjson(out)
+    d = os.path.join(rundir(), "ld")
+    os.makedirs(d, exist_ok=True)
+    recs = gbv(["load", "--cases", out, "--dir", d])
+    summ = [r for r in recs if r.get("kind") == "summary"]
+    if not summ or summ[0]["cases"] != len(cases):
+        raise ToolError("loader replay incomplete")
+    ck.count(len(cases))
+    ck.nontrivial_count += len(cases)
+    ck.sample({k: cases[4100][k] for k in ("id", "fam", "fileLen", "exp", "romsize", "ramsize", "kind")})
+    for m in recs:
+        if m.get("kind") == "mismatch":
+            ck.mismatch(m, "inprocess-%s-%s" % (m["fam"], "-".join(m["fields"])))
+    # end to end
+    exe = vlib.build_real_binary(False)
+    sel = [c for c in cases if c["fam"] != "tables"]
+    if not thorough:
+        sel = [c for i, c in enumerate(sel) if c["fam"] == "sizes" and i % 3 == 0 or c["fam"] != "sizes" and i % 8 == 0]
+    def run_one(c):
+        path = os.path.join(d, "e2e_%d.gb" % c["id"])
+        gbprog.write_load_case_file(path, c)
+        try:
+            p = subprocess.run([exe, path], stdout=subprocess.PIPE, stderr=subprocess.PIPE, timeout=0.4,
+                               env=dict(os.environ, RUST_BACKTRACE="0"))
+            outb, rc = p.stdout, p.returncode
+        except subprocess.TimeoutExpired as e:
+            outb, rc = e.stdout or b"", None
+        os.remove(path)
+        return c, outb, rc
+    with ThreadPoolExecutor(max_workers=12) as ex:
+        results = list(ex.map(run_one, sel))
+    ck.count(len(results))
+    ck.traces += len(results)
+    naccept = 0
+    for c, outb, rc in results:
+        # a panic while the core is being built (exit status 101) is a controlled termination at load time
+        accepted = outb.startswith(b'Loading "') and rc != 101
+        exp_ok = c["exp"]["ok"]
+        fault = rc is not None and rc < 0
+        first = outb.split(b"\n", 1)
+        ran = len(first) == 2 and first[1].startswith(b"K")
+        bad = None
+        if fault:
+            bad = "fault"
+        elif accepted != exp_ok:
+            bad = "decision"
+        elif accepted and not ran:
+            bad = "accepted-but-did-not-run"
+        if accepted:
+            naccept += 1
+        if bad:
+            ck.mismatch({"kind": "binary-load", "what": bad, "id": c["id"], "fam": c["fam"], "fileLen": c["fileLen"], "exp": c["exp"],
+                         "rc": rc, "stdout": outb[:120].decode("latin1"), "type_rom_ram": [c["hdr"][71], c["hdr"][72], c["hdr"][73]]},
+                        "binary-%s-%s" % (bad, c["fam"]))
+    ck.extra["binary_runs"] = len(results)
+    ck.extra["binary_accepted"] = naccept
+    if naccept < 10:
+        raise ToolError("vacuity: the binary accepted almost nothing")
